@@ -8,6 +8,7 @@ structure FieldDecl where
   name : String
   ty : Ty
   prevented : Bool        -- tagged `wire:"-"`
+  hidden : Bool := false  -- unexported, and declared by another package than the struct type (`type S other.T`)
 deriving Repr, DecidableEq, Inhabited
 
 /-- how a field-name argument is spelled -/
@@ -22,6 +23,7 @@ inductive FieldErr
   | prevented (s : String)
   | dup (t : Ty)
   | tooMany
+  | hidden (s : String)
 deriving Repr, DecidableEq, Inhabited
 
 /-- `checkField` -/
@@ -35,10 +37,20 @@ def checkField (fs : List FieldDecl) : FieldArg → Except FieldErr FieldDecl
 /-- `allFields(call)`: exactly one field argument and it is the literal "*" -/
 def allFields (args : List FieldArg) : Bool := args == [.str "*"]
 
+/-- a named field of `wire.Struct`: `checkField`, then the field must be settable from the struct type's package -/
+def structField (fs : List FieldDecl) (a : FieldArg) : Except FieldErr FieldDecl :=
+  match checkField fs a with
+  | .error e => .error e
+  | .ok f => if f.hidden then .error (.hidden f.name) else .ok f
+
 /-- the `Args` of the struct provider (type, field name), before the duplicate-type test -/
 def structArgs (fs : List FieldDecl) (args : List FieldArg) : Except FieldErr (List FieldDecl) :=
-  if allFields args then .ok (fs.filter (fun f => !f.prevented && f.name != "_"))
-  else args.mapM (checkField fs)
+  if allFields args then
+    let sel := fs.filter (fun f => !f.prevented && f.name != "_")
+    match sel.find? (·.hidden) with
+    | some f => .error (.hidden f.name)
+    | none => .ok sel
+  else args.mapM (structField fs)
 
 /-- `processStructProvider` after the first argument has been recognised -/
 def structProviderArgs (fs : List FieldDecl) (args : List FieldArg) : Except FieldErr (List FieldDecl) :=
